@@ -112,6 +112,8 @@ class RelEngine(Engine):
             return v
         if isinstance(v, VNone):
             return VVal(z3.Const("val_None", Val))
+        if getattr(self, "to_val_hook", None) is not None:
+            return self.to_val_hook(self, v, st)
         raise Unsupported("cannot store " + type(v).__name__ + " as a node value")
 
     # ---- expressions
@@ -162,20 +164,76 @@ class RelEngine(Engine):
                         Y = self.ev(e_.orelse, st)
                         base = set_del(src.term, X.e)
                         return VSet(z3.If(src.has(X.e), set_add(base, Y.e), base), src.cls)
+                # general case: [f(c) for c in S] with effects -> a loop over S cut by the invariant registered as loops[("comp", k)]
+                comps = self.cur_loops.setdefault("comp_ids", {})
+                k = comps.setdefault(id(n), len(comps))
+                inv = self.cur_loops["inv"].get(("comp", k))
+                if inv is not None and not g.ifs:
+                    return self.comp_loop(n, st, src, g, inv, k)
         return super().ev_ListComp(n, st)
+
+    def comp_loop(self, n, st, src, g, inv, k):
+        vis = f"#cvis{k}"
+        st.locals[vis] = VSet(EMPTY)
+        st.locals[f"#centry{k}"] = st.copy()
+        self.oblige(f"comp{k}.inv.init", st, inv(self, st))
+        h = self.havoc_for_loop(st, [], extra_locals=[])
+        h.locals[vis] = VSet(fresh("visited", SetSort))
+        h.assume(inv(self, h))
+        p = fresh("it", Ref)
+        b = h.copy().assume(z3.And(src.has(p), z3.Not(h.locals[vis].has(p))))
+        b.locals[g.target.id] = VRef(p, src.cls)
+        try:
+            self.ev(n.elt, b)
+        except PyRaise:
+            st.heap, st.pc, st.ghost = b.heap, b.pc, b.ghost       # the element expression raised: the statement raises from that state
+            raise
+        b.locals[vis] = VSet(set_add(b.locals[vis].term, p))
+        self.oblige(f"comp{k}.inv.preserve", b, inv(self, b))
+        ex = h.copy().assume(z3.ForAll([_x], z3.Implies(src.has(_x), h.locals[vis].has(_x))))
+        st.heap, st.pc, st.ghost = ex.heap, ex.pc, ex.ghost
+        st.locals[vis] = ex.locals[vis]
+        return VOpaque(("complist", k))
 
     def ev_Subscript(self, n, st):
         base = self.ev(n.value, st)
         if isinstance(base, VSet):
-            # element at an index of an abstracted list: some member of the set
+            idx = self.ev(n.slice, st)
+            return self.elem_at(st, base, idx, n)
+        return super().ev_Subscript(n, st)
+
+    def elem_at(self, st, base, idx, n):
+        """element at an index of an abstracted list: some member of the set (the same one for the same list value and index)"""
+        key = (base.term.get_id(), idx.e.get_id() if hasattr(idx, "e") else 0)
+        memo = st.ghost.get("elem_at", {})
+        if key not in memo:
             r = fresh("elem", Ref)
             st.assume(z3.Implies(z3.Exists([_x], base.has(_x)), base.has(r)))
             self.oblige("pre@index-nonempty:" + ast.unparse(n), st, z3.Exists([_x], base.has(_x)))
-            return VRef(r, base.cls)
-        return super().ev_Subscript(n, st)
+            st.ghost = dict(st.ghost)
+            st.ghost["elem_at"] = dict(memo)
+            st.ghost["elem_at"][key] = r
+            memo = st.ghost["elem_at"]
+        return VRef(memo[key], base.cls)
+
+    def store(self, t, v, st):
+        if isinstance(t, ast.Subscript):
+            base = self.ev(t.value, st)
+            if isinstance(base, VSet) and isinstance(v, VRef):
+                # list item assignment on an abstracted list: the old element at that index leaves the set unless it also occurs elsewhere
+                old = self.elem_at(st, base, self.ev(t.slice, st), t)
+                dup = fresh("occurs_elsewhere", B)
+                new = z3.If(dup, set_add(base.term, v.e), set_add(set_del(base.term, old.e), v.e))
+                return self.store(t.value, VSet(new, base.cls), st)
+        return super().store(t, v, st)
+
+    def ev_List(self, n, st):
+        if not n.elts:
+            return VSet(EMPTY, "ValueNode")      # in pointer code an empty list literal is an (empty) collection of nodes
+        return super().ev_List(n, st)
 
     def ev_Attribute(self, n, st):
-        if n.attr in ("append", "add", "remove", "discard") and isinstance(n.value, ast.Attribute):
+        if n.attr in ("append", "add", "remove", "discard") and isinstance(n.value, (ast.Attribute, ast.Name)):
             b = self.ev(n.value, st)
             if isinstance(b, VSet):
                 vb = VBound(b, n.attr)
@@ -209,7 +267,7 @@ class RelEngine(Engine):
         return super().ev_Call(n, st)
 
     def st_Expr(self, n, st):
-        if isinstance(n.value, ast.Call) and isinstance(n.value.func, ast.Attribute) and n.value.func.attr in ("append", "add", "remove", "discard") and isinstance(n.value.func.value, ast.Attribute):
+        if isinstance(n.value, ast.Call) and isinstance(n.value.func, ast.Attribute) and n.value.func.attr in ("append", "add", "remove", "discard") and isinstance(n.value.func.value, (ast.Attribute, ast.Name)):
             b = self.ev(n.value.func.value, st)
             if isinstance(b, VSet):
                 self.ev_Call(n.value, st)
